@@ -20,6 +20,8 @@ import (
 	"os/exec"
 	"path/filepath"
 	"runtime"
+	"runtime/debug"
+	"runtime/pprof"
 	"sort"
 	"strconv"
 	"strings"
@@ -52,9 +54,15 @@ type scenario struct {
 // suite is the per-property list of scenarios; it must be a deterministic function of the tier.
 type suite struct {
 	Prop      string
-	Scenarios func(thorough bool) []scenario
+	Scenarios func(thorough bool) scenarioSet
 	Race      bool // oracle = race detector (binary must be built with -race)
 	Finish    func(run *ev.Run, thorough bool)
+}
+
+// scenarioSet is a lazily generated list (the thorough tiers have millions of scenarios).
+type scenarioSet struct {
+	N  int
+	At func(i int) scenario
 }
 
 var suites = map[string]*suite{}
@@ -73,21 +81,23 @@ type found struct {
 }
 
 type workerResult struct {
-	Shard          int               `json:"shard"`
-	Scenarios      int               `json:"scenarios"`
-	Completed      int               `json:"completed"`
-	Capped         bool              `json:"capped"`
-	ExecsByBound   []int64           `json:"execs_by_bound"` // executions run in bound iteration b
-	NewByBound     []int64           `json:"new_by_bound"`   // distinct schedules with exactly b preemptions
-	BoundDoneMin   int               `json:"bound_done_min"`
-	Steps          int64             `json:"steps"`
-	MaxPoints      int               `json:"max_points"`
-	Outcomes       map[string]int64  `json:"outcomes"`
-	PerScenario1   int               `json:"scenarios_with_one_outcome"`
-	Found          map[string]*found `json:"found"`
-	Samples        []any             `json:"samples"`
-	OutcomeSamples []string          `json:"outcome_samples"`
-	WallS          float64           `json:"wall_s"`
+	Shard           int               `json:"shard"`
+	Scenarios       int               `json:"scenarios"`
+	Completed       int               `json:"completed"`
+	Capped          bool              `json:"capped"`
+	ExecsByBound    []int64           `json:"execs_by_bound"` // executions run in bound iteration b
+	NewByBound      []int64           `json:"new_by_bound"`   // distinct schedules with exactly b preemptions
+	BoundDoneMin    int               `json:"bound_done_min"`
+	Steps           int64             `json:"steps"`
+	MaxPoints       int               `json:"max_points"`
+	Outcomes        map[string]int64  `json:"outcomes"`
+	PerScenario1    int               `json:"scenarios_with_one_outcome"` // among those with more than one schedule
+	Multi           int               `json:"scenarios_with_several_schedules"`
+	BoundsCompleted map[string]int    `json:"bounds_completed"` // preemption bound -> scenarios explored completely up to it
+	Found           map[string]*found `json:"found"`
+	Samples         []any             `json:"samples"`
+	OutcomeSamples  []string          `json:"outcome_samples"`
+	WallS           float64           `json:"wall_s"`
 }
 
 // outcomeKey keeps the outcome tables small: long outcome strings are represented by their hash.
@@ -134,16 +144,31 @@ func getSuite(prop string) *suite {
 
 // ---- worker -------------------------------------------------------------------------------------
 
-type journal struct{ f *os.File }
+type journal struct {
+	f   *os.File
+	buf []byte
+}
 
 func (j *journal) write(idx int, name string, prefix []int) {
 	if j.f == nil {
 		return
 	}
-	var b bytes.Buffer
-	fmt.Fprintf(&b, "%d\t%s\t%v\n", idx, name, prefix)
-	_, _ = j.f.WriteAt(b.Bytes(), 0)
-	_ = j.f.Truncate(int64(b.Len()))
+	// one pwrite of a fixed-size record: "<scenario index>\t<name>\t<choices>" padded with spaces
+	b := j.buf[:0]
+	b = strconv.AppendInt(b, int64(idx), 10)
+	b = append(b, '\t')
+	b = append(b, name...)
+	b = append(b, '\t')
+	for _, c := range prefix {
+		b = strconv.AppendInt(b, int64(c), 10)
+		b = append(b, ' ')
+	}
+	for len(b) < 511 {
+		b = append(b, ' ')
+	}
+	b = append(b, '\n')
+	j.buf = b
+	_, _ = j.f.WriteAt(b, 0)
 }
 
 func worker(args []string) {
@@ -151,6 +176,7 @@ func worker(args []string) {
 		ev.Fatal("worker: bad arguments")
 	}
 	runtime.GOMAXPROCS(1) // hand-off is a Gosched spin: one P keeps it cheap and deterministic
+	debug.SetGCPercent(200)
 	st := getSuite(args[0])
 	thorough := args[1] == "thorough"
 	shard, _ := strconv.Atoi(args[2])
@@ -165,22 +191,27 @@ func worker(args []string) {
 			budget = time.Duration(s) * time.Second
 		}
 	}
+	if pf := os.Getenv("VERIF_SCHED_PROF"); pf != "" {
+		f, _ := os.Create(pf)
+		_ = pprof.StartCPUProfile(f)
+		defer pprof.StopCPUProfile()
+	}
 	start := time.Now()
 	deadline := start.Add(budget)
 	jf, _ := os.Create(filepath.Join(outdir, fmt.Sprintf("cur.%d", shard)))
-	j := &journal{jf}
+	j := &journal{f: jf}
 	var rl *raceLog
 	if st.Race {
 		rl = newRaceLog(filepath.Join(outdir, fmt.Sprintf("race.%d.%d", shard, os.Getpid())))
 	}
 	scs := st.Scenarios(thorough)
-	res := &workerResult{Shard: shard, Outcomes: map[string]int64{}, Found: map[string]*found{}, BoundDoneMin: 99}
+	res := &workerResult{Shard: shard, Outcomes: map[string]int64{}, Found: map[string]*found{}, BoundDoneMin: 99, BoundsCompleted: map[string]int{}}
 	checks := 0
-	for idx := range scs {
+	for idx := 0; idx < scs.N; idx++ {
 		if idx%n != shard {
 			continue
 		}
-		sc := scs[idx]
+		sc := scs.At(idx)
 		res.Scenarios++
 		local := map[string]bool{}
 		var e *vsync.Explorer
@@ -260,8 +291,16 @@ func worker(args []string) {
 			break
 		}
 		res.Completed++
-		if len(local) == 1 {
-			res.PerScenario1++
+		res.BoundsCompleted[strconv.Itoa(sc.Bound)]++
+		var execs int64
+		for _, c := range e.New {
+			execs += c
+		}
+		if execs > 1 {
+			res.Multi++
+			if len(local) == 1 {
+				res.PerScenario1++
+			}
 		}
 	}
 	res.WallS = time.Since(start).Seconds()
@@ -300,10 +339,10 @@ func replay(args []string) {
 		ev.Fatal("replay: %v", err)
 	}
 	scs := st.Scenarios(args[1] == "thorough")
-	if idx < 0 || idx >= len(scs) {
+	if idx < 0 || idx >= scs.N {
 		ev.Fatal("replay: scenario index out of range")
 	}
-	sc := scs[idx]
+	sc := scs.At(idx)
 	e := &vsync.Explorer{Body: sc.Body}
 	x := e.Replay(choices)
 	outcome, vs := sc.Check(x)
@@ -329,7 +368,7 @@ func parent(prop string) {
 		ev.Fatal("%v", err)
 	}
 	defer os.RemoveAll(outdir)
-	nsc := len(st.Scenarios(thorough))
+	nsc := st.Scenarios(thorough).N
 	n := runtime.NumCPU()
 	if n > nsc {
 		n = nsc
@@ -352,7 +391,7 @@ func parent(prop string) {
 			if st.Race {
 				// discovery: the detector reports into a log and the exploration goes on; every distinct
 				// report is then confirmed in fresh processes with halt_on_error=1 exitcode=66 (below)
-				cmd.Env = append(cmd.Env, "GORACE=halt_on_error=0 history_size=2 log_path="+filepath.Join(outdir, fmt.Sprintf("race.%d", i)))
+				cmd.Env = append(cmd.Env, "GORACE=halt_on_error=0 exitcode=0 history_size=2 suppress_equal_stacks=0 suppress_equal_addresses=0 log_path="+filepath.Join(outdir, fmt.Sprintf("race.%d", i)))
 			}
 			var stderr bytes.Buffer
 			cmd.Stderr = &stderr
@@ -369,7 +408,7 @@ func parent(prop string) {
 			ev.Fatal("%s", e)
 		}
 	}
-	total := &workerResult{Outcomes: map[string]int64{}, Found: map[string]*found{}, BoundDoneMin: 99}
+	total := &workerResult{Outcomes: map[string]int64{}, Found: map[string]*found{}, BoundDoneMin: 99, BoundsCompleted: map[string]int{}}
 	for i := 0; i < n; i++ {
 		data, err := os.ReadFile(filepath.Join(outdir, fmt.Sprintf("res.%d.json", i)))
 		if err != nil {
@@ -384,6 +423,10 @@ func parent(prop string) {
 		total.Capped = total.Capped || r.Capped
 		total.Steps += r.Steps
 		total.PerScenario1 += r.PerScenario1
+		total.Multi += r.Multi
+		for k, v := range r.BoundsCompleted {
+			total.BoundsCompleted[k] += v
+		}
 		if r.MaxPoints > total.MaxPoints {
 			total.MaxPoints = r.MaxPoints
 		}
@@ -437,13 +480,14 @@ func parent(prop string) {
 	}
 	run.Bounds["scenarios"] = total.Scenarios
 	run.Bounds["scenarios_completed"] = total.Completed
-	run.Bounds["preemption_bound_completed"] = total.BoundDoneMin
+	run.Bounds["scenarios_completed_by_preemption_bound"] = total.BoundsCompleted
 	run.Bounds["executions_by_bound_iteration"] = total.ExecsByBound
 	run.Bounds["distinct_schedules_by_preemptions"] = total.NewByBound
 	run.Bounds["max_scheduling_points_per_execution"] = total.MaxPoints
 	run.Extra["distinct_schedules"] = distinct
 	run.Extra["outcome_samples"] = total.OutcomeSamples
-	run.Extra["scenarios_with_single_outcome"] = total.PerScenario1
+	run.Extra["scenarios_with_several_schedules"] = total.Multi
+	run.Extra["of_which_single_outcome"] = total.PerScenario1
 	run.Extra["workers"] = n
 	run.Extra["executions_per_second"] = int64(float64(execs) / (total.WallS + 1e-9))
 	if total.Capped {
@@ -467,8 +511,8 @@ func parent(prop string) {
 			map[string]any{"binary": "sched", "scenario_index": f.Scenario, "scenario": f.Name, "tier": tier, "choices": f.Choices, "preemptions": f.Preemptions,
 				"operations": sched, "rerun": fmt.Sprintf("%s replay %s %s %d '%s'", filepath.Base(self), prop, tier, f.Scenario, jsonInts(f.Choices))})
 	}
-	fmt.Printf("%s sched: scenarios=%d executions=%d (by bound iteration %v) distinct schedules=%d (by preemptions %v) bound completed=%d distinct outcomes=%d single-outcome scenarios=%d exec/s=%d workers=%d\n",
-		prop, total.Scenarios, execs, total.ExecsByBound, distinct, total.NewByBound, total.BoundDoneMin, len(total.Outcomes), total.PerScenario1,
+	fmt.Printf("%s sched: scenarios=%d executions=%d (by bound iteration %v) distinct schedules=%d (by preemptions %v) scenarios completed per preemption bound=%v distinct outcomes=%d multi-schedule scenarios=%d (single-outcome: %d) exec/s=%d workers=%d\n",
+		prop, total.Scenarios, execs, total.ExecsByBound, distinct, total.NewByBound, total.BoundsCompleted, len(total.Outcomes), total.Multi, total.PerScenario1,
 		int64(float64(execs)/(total.WallS+1e-9)), n)
 	if st.Finish != nil {
 		st.Finish(run, thorough)
